@@ -236,6 +236,9 @@ def tr_trigger(fn):
         if m:
             out.append(f".initialBranch {B(bool(m.group(2)))}")
             continue
+        if t == "if TD is self._activation:\n    return self._sentinel":
+            out.append(".skipStaleActivation")
+            continue
         m = re.match(r"^(\w+) = self\.sm\.current_state$", t)
         if m:
             bind(env, m.group(1), "ST")
